@@ -368,6 +368,59 @@ def reads_that_succeed(run):
     core.explore(lambda: None, lambda p, out: go(p))
 
 
+READ_BINDINGS = [
+    # (label, program, position of a read, positions of the bindings an execution reads there)
+    ('first-arm-reads-what-the-test-binds', 'def f(g):\n    r = w if (w := g()) else 0\n    return r\n', (2, 8), [(2, 14)]),
+    ('first-arm-reads-what-the-test-rebinds', 'def f(g):\n    w = 0\n    r = w if (w := g()) else 1\n    return r\n', (3, 8), [(3, 14)]),
+    ('else-arm-reads-what-the-test-binds', 'def f(g):\n    r = 1 if not (w := g()) else w\n    return r\n', (2, 33), [(2, 18)]),
+    ('first-arm-of-a-nested-conditional', 'def f(g):\n    return (w.a if (w := g()) else 2) if g else 3\n', (2, 12), [(2, 20)]),
+    ('at-module-level', 'import os\nr = u if (u := os.sep) else 0\nprint(r)\n', (2, 4), [(2, 10)]),
+    ('second-operand-of-an-and-reads-what-the-first-binds', 'def f(g):\n    return (w := g()) and w.a\n', (2, 26), [(2, 12)]),
+    ('later-comparator-reads-what-an-earlier-one-binds', 'def f(g):\n    return 0 < (w := g()) < w + 1\n', (2, 28), [(2, 16)]),
+]
+
+
+@harness(['C02'], 'supp.linter.lint / supp.assistant.location [bindings made inside the expression that reads them]',
+         bounded='7 programs: a walrus in the test of a conditional expression read in an arm written before or after it, in a boolean operand, in a comparator; '
+                 'each binding is read by every execution that reaches the read')
+def bindings_read_inside_their_expression(run):
+    """BOUNDED: C02 at its two observation points for bindings that stand to the right of (or inside the same expression as) the read that
+    obtains them: lint does not call the binding unused, go-to-definition from the read lists it.  Not counted as proved."""
+    import supp.linter as L
+    import supp.assistant as A
+    import supp.project as Pj
+
+    def go(path):
+        for label, text, read, defs in READ_BINDINGS:
+            compile(text, '<c02>', 'exec')
+            ln, col = read
+            line = text.split('\n')[ln - 1]
+            word = line[col:].split('.')[0].split(' ')[0].split(')')[0]
+            prove('%s:the-read-and-the-bindings-are-where-the-row-says' % label,
+                  word.isidentifier() and all(text.split('\n')[l - 1][c:].startswith(word) for l, c in defs), kind='lemma',
+                  clause='the row names the same identifier at the read and at each binding [%r]' % (word,), path=path)
+            diags = [d[:4] for d in L.lint(Pj.Project(['/nonexistent']), text)]
+            unused = [d for d in diags if d[0] in ('W01', 'W02') and (d[2], d[3]) in defs]
+            res = A.location(Pj.Project(['/nonexistent']), text, read, '<c02>')
+            flat = []
+            for r in res:
+                flat.extend(r if isinstance(r, list) else [r])
+            got = sorted(tuple(r['loc']) for r in flat if r.get('file') == '<c02>')
+            script = ('import sys; sys.path.insert(0, %r)\nfrom supp.linter import lint\nfrom supp.assistant import location\nfrom supp.project import Project\n'
+                      'text = %r\nprint(text)\nd = [x[:4] for x in lint(Project(["/nonexistent"]), text)]\nprint("lint:", d)\n'
+                      'g = location(Project(["/nonexistent"]), text, %r, "<c02>")\nprint("go-to-definition from %r:", g)\n'
+                      'flat = []\nfor r in g: flat.extend(r if isinstance(r, list) else [r])\n'
+                      'bad = [x for x in d if x[0] in ("W01", "W02") and (x[2], x[3]) in %r] or [p for p in %r if p not in [tuple(r["loc"]) for r in flat]]\n'
+                      'print("REPRODUCED: the binding at %r is read by the execution, supp: %%r" %% (bad,) if bad else "not reproduced")\n'
+                      ) % (core.REPO, text, read, read, defs, defs, defs)
+            core.RUN.concretise = lambda model, ob, text=text, script=script: {'input': text, 'script': script}
+            prove('%s:the-binding-is-not-reported-unused' % label, not unused, clause='lint reports %r for a binding the read at %r obtains\n%s' % (unused, read, text), path=path)
+            prove('%s:go-to-definition-lists-the-binding' % label, all(d in got for d in defs),
+                  clause='go-to-definition from %r lists %r, the execution reads %r\n%s' % (read, got, defs, text), path=path)
+            core.RUN.concretise = None
+    core.explore(lambda: None, lambda p, out: go(p))
+
+
 STAR_MODULES = {
     'with_all.py': '__all__ = ["_hidden", "shown"]\n_hidden = 1\nshown = 2\nnot_listed = 3\n',
     'with_all_tuple.py': '__all__ = ("t_one", "_t_two")\nt_one = 1\n_t_two = 2\nt_three = 3\n',
